@@ -16,6 +16,7 @@ def build():
 
     def add(name, harness, threads, R, units, ninit=0, nfinal=0, sem='counting', pools=None, unroll=None, extra=None, excl=(), defines=(), **kw):
         defs = (['VF_BINARY_SEM'] if sem == 'binary' else []) + list(defines)
+        nopool = (pools == {})       # explicitly no heap at all (C++ time unit); NB: evaluated before 'extra_waiters' is popped below
         nsched = len(threads) - ninit - nfinal
         p = {'waiter': {'type': 'struct.waiter', 'count': nsched + (1 if ninit or nfinal else 0) + (pools or {}).pop('extra_waiters', 0) if pools else nsched + 1}}
         if pools:
@@ -23,7 +24,7 @@ def build():
         ce = {'const_globals': CONSTG, 'exclude_fns': list(excl)}
         if extra:
             ce.update(extra)
-        if pools == {}:
+        if nopool:
             p = {}
         sc = Scenario('%s_R%d%s' % (name, R, '_bin' if sem == 'binary' else ''), harness, threads, units=units, R=R, ninit=ninit, nfinal=nfinal, defines=defs, pools=p,
                       unroll=unroll or dict(UNROLL), cfg_extra=ce, **kw)
@@ -142,6 +143,17 @@ def build():
             excl=CTR_FN + CVW_FN, unroll={'*': 1, 'nsync_note_free': 2}, defines=['VF_FROZEN_CLOCK'], timeout=6000)
         add('notep_freechild_freegrand', 'note_basic.c', ['free_child', 'free_grand', 'setup_tree', 'final_siblings'], R, CV_UNITS, ninit=1, nfinal=1, pools=dict(NOTE), extra=NOTEP,
             excl=CTR_FN + CVW_FN, unroll={'*': 1, 'nsync_note_free': 2}, defines=['VF_FROZEN_CLOCK'], timeout=6000)
+    # ---- cancellable waits (C05), contended entry to a held mutex pruned
+    CANC = dict(NOTEP, max_rec=1)
+    NOTE1 = {'note': {'type': 'struct.nsync_note_s_', 'count': 1}}
+    for R in (2, 3):
+        add('cancp_cv_notifier', 'cancel_basic.c', ['cv_waiter_cancel', 'notifier', 'setup', 'final_nothing'], R, CV_UNITS, ninit=1, nfinal=1, pools=dict(NOTE1), extra=CANC,
+            excl=CTR_FN + CVW_FN + WN_FN, unroll={'*': 1, 'note_notify_child': 2, 'nsync_cv_wait_with_deadline_generic': 2, 'cv_waiter_cancel': 2, 'cv_waiter_cancel_timed': 2}, defines=['VF_FROZEN_CLOCK'], timeout=6000)
+        add('cancp_cvtimed_notifier', 'cancel_basic.c', ['cv_waiter_cancel_timed', 'notifier', 'setup', 'final_nothing'], R, CV_UNITS, ninit=1, nfinal=1, pools=dict(NOTE1), extra=CANC,
+            excl=CTR_FN + CVW_FN + WN_FN, unroll={'*': 1, 'note_notify_child': 2, 'nsync_cv_wait_with_deadline_generic': 2, 'cv_waiter_cancel': 2, 'cv_waiter_cancel_timed': 2}, timeout=6000)
+        add('cancp_mu_notifier', 'cancel_basic.c', ['mu_waiter_cancel', 'notifier', 'setup', 'final_nothing'], R, CV_UNITS, ninit=1, nfinal=1, pools=dict(NOTE1),
+            extra=dict(NOEXP, max_rec=1, prune_calls=[['nsync_mu_lock', 'nsync_waiter_new_'], ['nsync_mu_rlock', 'nsync_waiter_new_'], ['nsync_mu_unlock', 'nsync_mu_unlock_slow_'], ['nsync_mu_runlock', 'nsync_mu_unlock_slow_']]),
+            excl=CTR_FN + CVW_FN + WN_FN, unroll={'*': 1, 'note_notify_child': 2, 'nsync_mu_wait_with_deadline': 2}, defines=['VF_FROZEN_CLOCK'], timeout=6000)
     # ---- wait_n
     WN = {'note': {'type': 'struct.nsync_note_s_', 'count': 1}, 'counter': {'type': 'struct.nsync_counter_s_', 'count': 1},
           'nwarr': {'type': 'struct.nsync_waiter_s', 'array': 5, 'count': 1}}
